@@ -226,6 +226,7 @@ def _insertions(anchors, idless=False):
     out = []
     for k, a in enumerate(anchors):
         d = subtotal("s%d" % k, ADDENDS[k % 3], anchor=a, sid=None if idless else 10 + k)
+        d["alias"] = "al_s%d" % k
         out.append(d)
     return out
 
@@ -317,10 +318,12 @@ def _compare(part, exp, sub_ids, eff, dim, V, tag=""):
         obs_s = [int(i) for i in part.column_order()]
         obs_b = list(part.column_order(ORDER_FORMAT.BOGUS_IDS))
         labels = list(part.column_labels)
+        aliases = list(part.column_aliases)
     else:
         obs_s = [int(i) for i in part.row_order()]
         obs_b = list(part.row_order(ORDER_FORMAT.BOGUS_IDS))
         labels = list(part.row_labels)
+        aliases = list(part.row_aliases)
     obs_b = [int(x) if not str(x).startswith("ins_") else str(x) for x in obs_b]
     asserted += 3
     if obs_s != signed:
@@ -331,6 +334,17 @@ def _compare(part, exp, sub_ids, eff, dim, V, tag=""):
                       "(signed %r)" % (obs_b, bogus, obs_s)))
     if len(labels) != len(obs_s):
         V.append(viol("order:labels_extent" + tag, "labels %r vs order %r" % (labels, obs_s)))
+    elif obs_s == signed and eff:
+        # the label and alias shown at a subtotal's position are those of THAT insertion (effective list)
+        asserted += 1
+        for pos, e in enumerate(exp):
+            if e[0] == "s":
+                want = (eff[e[1]]["name"], eff[e[1]].get("alias", ""))
+                got = (labels[pos], aliases[pos] if pos < len(aliases) else None)
+                if got != want:
+                    V.append(viol("naming:subtotal" + tag, "position %d shows label/alias %r, the insertion placed there "
+                                  "is %r" % (pos, got, want)))
+                    break
     # payload_order: the same vectors in PAYLOAD order (an explicit order plays no part), subtotals at their
     # anchors and named by insertion id, hidden and pruned elements left out
     _p, pspec, ambiguous = PAYLOAD_SPEC.pop(id(part), (None, None, True))
